@@ -13,5 +13,6 @@ var (
 	ErrAssetEquity              = errors.New("asset equity can't be nil or 0")
 	ErrTransferFrozenAsset      = errors.New("cannot trade frozen assets")
 	ErrNegativeAssetAmount      = errors.New("asset amount can't be negative")
+	ErrAssetCodeNotEqual        = errors.New("the receiver holds this asset id under another asset code")
 	ErrTermReward               = errors.New("no permission to call this Precompiled contract")
 )
